@@ -15,7 +15,13 @@
     responsible for is void or the hash of the current tags, every write decodes by the layout alone to the current
     content.  Trace_PackObj: real packs are built, changed through every public mutator / exported field of the eight
     types and written 2..8 times (gens hashenum, retag, mut); the harness reports only the calls and their arguments,
-    the content at each write is derived by the specification."""
+    the content at each write is derived by the specification.
+(H) the encoder OUTPUT while the caller holds it (spec/PackOut.tla): what ToBytesPack returned / what ToByteArray of a
+    caller-owned output shows after WritePack is kept uncopied; further encoder calls follow (same pack, other packs,
+    other outputs, the reader, several goroutines at once) and every kept slice is looked at again: it must still be
+    the reference bytes (law HeldStable; outputs are append-only).  MC_PackOut explores the law on the design for a
+    buffer per call, a recycled buffer handed out as a copy (both keep it) and a recycled buffer handed out as it is
+    (refuted)."""
 from concurrent.futures import ThreadPoolExecutor
 
 import vf
@@ -33,6 +39,11 @@ def body(run):
         run.mc("MC_PackWire", cfg="MC_PackWire_stream_thorough.cfg" if th else "MC_PackWire_stream.cfg", workers=w)
         run.mc("MC_PackObj", cfg="MC_PackObj_thorough.cfg" if th else "MC_PackObj.cfg", workers=w)
         run.mc("MC_PackObj", cfg="MC_PackObj_content_thorough.cfg" if th else "MC_PackObj_content.cfg", workers=w)
+        # the outputs while the caller holds them: a buffer per call and a recycled buffer handed out as a copy keep
+        # HeldStable; a recycled buffer handed out as it is does not
+        run.mc("MC_PackOut", cfg="MC_PackOut.cfg", workers=w)
+        run.mc("MC_PackOut", cfg="MC_PackOut_copy.cfg", workers=w)
+        run.mc("MC_PackOut", cfg="MC_PackOut_alias.cfg", expect_violation="HeldStable", workers=2)
 
     pool = ThreadPoolExecutor(max_workers=1)
     mcs = pool.submit(design)
@@ -52,6 +63,8 @@ def traces(run):
     # object histories: a corrupted write and a call that is not reported (the content moves on without the specification)
     run.selftest(out, meta, gen="retag", spec="Trace_PackObj", field="bytes", remove_match={"ev": "Mut"})
     run.selftest(out, meta, gen="frame", field="bytes", remove_match={"ev": "Recv"})
+    # held outputs: a second look that shows other bytes, and a call whose output is not reported (the views shift)
+    run.selftest(out, meta, gen="hold", spec="Trace_PackOut", field="v", remove_match={"ev": "ToBytes"})
     run.assumptions += [
         "a pack is projected from the values the generator drew (encoding/binary, math.Float32bits only), never read back through golib; exceptions: TagCountPack.GetTagHash / LogSinkPack.TagHash are read with the public getter / field (information only for tag-count: the specification derives the hash from the tags)",
         "the received frame is taken off the TCP stream by the harness the way a collector does (22 header bytes, then as many bytes as the 4-byte length field says) with the standard library; bytes behind the last frame are read until end of stream after the client closed",
@@ -61,5 +74,6 @@ def traces(run):
         "tag-count packs: the exported Tags map is assigned / edited directly only while no tag hash is cached (before the first write with tags, or right after PutTag); afterwards tags are changed through PutTag only -- the private hash cannot follow an edit of the exported map, and the pack offers no call to void it",
         "log-sink packs: the tag hash is an exported field: a caller who assigns it or edits the exported tag map under a cached hash owns the result (the hash is then sent as it is); every LIBRARY call that changes the tags must void it (specified in PackObj!Transfer / checked by MC_PackObj HashOwned)",
         "object histories: arguments of the calls are reported from the drawn values (standard library only); after SetUuid the generated id is read from the exported Uuid field; whether a tag-count hash is cached is asked through the public getter only to steer the generator; ParamPack.Clear is never called (it recurses without end -- candidate-defects.md; a stack overflow cannot be recovered by the harness); HitMapPack1.Add is called with non-negative times only; SetContentBytes gets well-formed version-1 blobs, other versions, empty and nil (a truncated version-1 blob leaves a half-applied pack behind and is outside the layout property)",
+        "held outputs (gen hold): the harness keeps the returned slices and never writes into them; a second look is a copy taken at that moment with the standard library; goroutines that encode at once work on packs of their own (a pack object is not shared between goroutines); counter packs in these histories carry at most one entry per pool map",
         "Reread (pack.ToPack of the bytes just written, then the history continues on the decoded object) is used for the kinds whose reader restores the content as it is (tag-count, log-sink, text, parameter, zip); the readers of event / hit-map / counter normalise or drop content (C03) and are not used to continue a history",
     ]
